@@ -34,6 +34,7 @@ const (
 	TFNonzeroEmpty ToolFault = "nonzero-empty"   // exits 1 without output
 	TFGarbage      ToolFault = "garbage"         // shellcheck only: prints something that is not JSON
 	TFEpipe        ToolFault = "epipe"           // exits before reading stdin: status 1, no output
+	TFEmptyOK      ToolFault = "empty-exit-0"    // shellcheck only: exits 0 and prints nothing at all (not JSON)
 )
 
 // ToolIssue is one issue a simulated tool prints.
@@ -73,6 +74,16 @@ func InvKey(tool, stdin string) string {
 	h := fnv.New64a()
 	h.Write([]byte(stdin))
 	return fmt.Sprintf("%s:%x", tool, h.Sum64())
+}
+
+// shellArg returns the value of shellcheck's --shell argument ("" when absent).
+func shellArg(argv []string) string {
+	for i := 0; i+1 < len(argv); i++ {
+		if argv[i] == "--shell" {
+			return argv[i+1]
+		}
+	}
+	return ""
 }
 
 func toolOf(argv []string) string {
@@ -159,6 +170,8 @@ func (t *Tools) Run(argv []string, stdin string) kern.ToolResult {
 	case TFNonzeroEmpty, TFEpipe:
 		// "exits non-zero without output": nothing on stdout and nothing on stderr
 		return kern.ToolResult{ExitCode: 1}
+	case TFEmptyOK:
+		return kern.ToolResult{ExitCode: 0}
 	case TFGarbage:
 		return kern.ToolResult{ExitCode: code, Stdout: []byte("shellcheck: internal error <<not json>>\n")}
 	}
